@@ -200,7 +200,7 @@ def run(ctx):
         f2 = repo.func(PR, f"{COLL}.{meth}")
         bad = [norm(c)[:60] for c in calls_in(f2) if call_attr(c) in LISTING]
         ctx.check("R2-no-listing", f"{PR}:{COLL}.{meth}", not bad, f"{meth} never calls allocate/_save_pack_names/autopack", construct="; ".join(bad), message=f"{meth} can make a partial pack listed: " + "; ".join(bad))
-    fn, g, where = fn_cfg(ctx, PR, f"{COLL}._suspend_write_group")
+    fn, g, where = fn_cfg(ctx, PR, f"{COLL}._suspend_write_group", roles={"tokens": ("return", None, None)})
     fin = need(where, calling(g, attr="finish", recv="self._new_pack"), "self._new_pack.finish(...)")
     oks = all(any(k.arg == "suspend" and norm(k.value) == "True" for k in c.keywords) for i in fin for c in g.nodes[i].calls() if call_attr(c) == "finish")
     ctx.check("R2-suspend-finish", where, oks, "suspending finishes the new pack with suspend=True (stays in upload/)", message="suspend finishes the pack as a live pack")
